@@ -331,10 +331,19 @@ def _sec_diagonal(coo_tree):
     fn = _func(coo_tree, "diagonal")
     if [a.arg for a in fn.args.args] != ["a", "offset", "axis1", "axis2"]:
         raise SiteError("diagonal: parameters changed")
+    # the body must start (after docstring / import) with the two axis normalisations, then the two guards
+    eff = [s for s in fn.body if not (isinstance(s, ast.Expr) and isinstance(s.value, ast.Constant))
+           and not isinstance(s, (ast.Import, ast.ImportFrom))]
+    if [ast.unparse(x) for x in eff[:2]] != ["axis1 = normalize_axis(axis1, a.ndim)", "axis2 = normalize_axis(axis2, a.ndim)"]:
+        raise SiteError("diagonal: the axis normalisation lines changed")
+    out.append(_tr_expr("site_diagonal_axis_ndim", eff[0].value.args[1], ["ndim"], {"a.ndim": "Ok ndim"},
+                        f"{COO_COMMON}:diagonal second argument of normalize_axis"))
     guards = [s for s in fn.body if isinstance(s, ast.If)]
-    if len(guards) != 1:
-        raise SiteError("diagonal: expected exactly one `if` guard")
-    out.append(_tr_stmts("site_diagonal_guard", guards, ["d1", "d2"],
+    if len(guards) != 2 or eff[2] is not guards[0] or eff[3] is not guards[1]:
+        raise SiteError("diagonal: expected exactly two `if` guards right after the axis normalisation")
+    out.append(_tr_stmts("site_diagonal_same_axis_guard", guards[:1], ["axis1", "axis2"], {},
+                         f"{COO_COMMON}:diagonal equal-axes guard"))
+    out.append(_tr_stmts("site_diagonal_guard", guards[1:], ["d1", "d2"],
                          {"a.shape[axis1]": "Ok d1", "a.shape[axis2]": "Ok d2"}, f"{COO_COMMON}:diagonal guard"))
     da = _assign_value(fn, "diag_axes")
     if not (isinstance(da, ast.BinOp) and isinstance(da.op, ast.Add) and isinstance(da.left, ast.ListComp)
